@@ -10,4 +10,5 @@ func extractMore(repo string, o *leanOut) {
 	o.str("protocolLine", mc.str("ProtocolLine"))
 	o.nat("maxReadChunk", mc.int("maxReadChunk"))
 	extractEvents(repo, o)
+	extractGrammar(repo, o)
 }
